@@ -176,8 +176,42 @@ def digest(case):
     return [[h["op"], h["pos"], h["kind"], h["k"]] for h in case["hist"]]
 
 
+def tlaps_proof(ctx):
+    """Unbounded counterpart of WeightsComplete / TimeComplete: specs/ChainWeights.tla, checked by the TLA+ proof system for
+    every chain length; the same module with the end weights falsified must NOT be provable (adequacy)."""
+    import os
+    import shutil
+    import subprocess
+    import tempfile
+    tmp = tempfile.mkdtemp(prefix="vtlaps_")
+    try:
+        src = open(os.path.join(core.SPECS, "ChainWeights.tla")).read()
+        results = {}
+        for name, text in (("ChainWeights", src),
+                           ("ChainWeightsBad", src.replace("MODULE ChainWeights", "MODULE ChainWeightsBad")
+                            .replace("WR(b) == IF b = L - 1 THEN 2 ELSE 1", "WR(b) == IF b = L THEN 2 ELSE 1"))):
+            with open(os.path.join(tmp, name + ".tla"), "w") as f:
+                f.write(text)
+            try:
+                p = subprocess.run(["tlapm", "--cleanfp", name + ".tla"], cwd=tmp, stdout=subprocess.PIPE,
+                                   stderr=subprocess.STDOUT, text=True, timeout=600)
+            except (OSError, subprocess.TimeoutExpired) as ex:
+                raise core.MachineryError("tlapm could not be run: %r" % ex)
+            results[name] = p.stdout
+        if "All 3 obligations proved" not in results["ChainWeights"]:
+            raise core.MachineryError("ChainWeights.tla is not proved:\n" + results["ChainWeights"][-800:])
+        if "obligations proved." in results["ChainWeightsBad"] and "failed" not in results["ChainWeightsBad"]:
+            raise core.MachineryError("the falsified weights are provable too: the proof says nothing")
+        ctx.note("TLAPS: WeightsCompleteForAllLengths and TimeCompleteForAllLengths proved for every chain length L >= 2 "
+                 "(3 obligations, SMT); the falsified variant is rejected")
+        ctx.extra["tlaps"] = {"module": "ChainWeights.tla", "obligations_proved": 3, "falsified_variant_rejected": True}
+    finally:
+        shutil.rmtree(tmp, ignore_errors=True)
+
+
 def run(ctx):
     quick = ctx.tier == "quick"
+    tlaps_proof(ctx)
     cases = []
     for n in ((2, 3, 4) if quick else (2, 3, 4, 5, 6)):
         consts = {"L": str(n), "NTerms": "2", "MaxOps": "2" if (quick or n > 3) else "3", "Dev": '"none"', "Emit": "TRUE"}
